@@ -104,7 +104,9 @@ Arguments NewFile {V}. Arguments LegacyFile {V}.
 Definition none_marker : string := "None".
 Definition file_type : string := "discretisedfield.Field".
 Definition file_version : string := "0.1".
-Definition default_tf : Q := 1 # 1000000000000.
+(* Region.__init__ default tolerance_factor = 1e-12, i.e. the binary64 number nearest to it:
+   4951760157141521 / 2^92 *)
+Definition default_tf : Q := 4951760157141521 # 4951760157141521099596496896.
 
 (* ---------- writer ---------- *)
 (* dtype of the subregion table: result_type(region.pmin, every subregion corner) *)
